@@ -5,7 +5,7 @@ tier=${1:-quick}; shift
 ids="$@"; [ -z "$ids" ] && ids="C01 C02 C03 C04 C05 C06 C07 C08 C09 C10 C11 C12 C13 C14 C15 C16 C17 C18 C19 C20"
 for p in $ids; do
   s=$(date +%s)
-  ./check $p --tier $tier > /tmp/run_all_$p.log 2>&1; rc=$?
+  timeout ${CHECK_TIMEOUT:-14400} ./check $p --tier $tier > /tmp/run_all_$p.log 2>&1; rc=$?
   e=$(date +%s)
   echo "$p tier=$tier rc=$rc secs=$((e-s)) $(grep -c '^KNOWN-FINDING' /tmp/run_all_$p.log) known; $(tail -1 /tmp/run_all_$p.log | cut -c1-160)"
   [ $rc -ne 0 ] && grep -v '^KNOWN' /tmp/run_all_$p.log | head -6 | cut -c1-300
